@@ -50,6 +50,7 @@ func main() {
 	if os.Getenv("C11_SKIP_B") == "" {
 		step("part B", func() { partB(r) })
 		step("part B pool churn", func() { jobChurn(r) })
+		step("part B moving chain", func() { jobReorg(r) })
 	}
 
 	flush(r)
